@@ -6,9 +6,11 @@ package main
 // + REAL expiry watcher (lifecycle_env.go environment) must register the expiry
 // of an account at every site that changes it. Called from runC09.
 //
-// Oracle (C09's statement one level up): after RenewAccount(E1 -> E2) no expiry
-// of the account is handled for blocks E1 <= h < E2, and exactly one once a
-// block >= E2 has been processed - whether or not the renewal has confirmed.
+// Oracle (C09's statement one level up): after a modification that moves the
+// expiry E1 -> E2 (RenewAccount, or DepositAccount / WithdrawAccount with a new
+// expiry) no expiry of the account is handled for blocks E1 <= h < E2, and
+// exactly one once a block >= E2 has been processed - whether or not the
+// modification has confirmed.
 
 import (
 	"context"
@@ -17,28 +19,32 @@ import (
 	"time"
 
 	"github.com/btcsuite/btcd/btcutil"
+	"github.com/btcsuite/btcd/wire"
 	"github.com/lightninglabs/pool/account"
 	"github.com/lightningnetwork/lnd/chainntnfs"
 	"github.com/lightningnetwork/lnd/lnwallet/chainfee"
 )
 
-// c09ManagerScenarios runs the renewal scenarios for account versions 0..2,
-// with the renewal confirming before the old expiry, between the old and the
-// new expiry, or never.
+// c09ManagerScenarios runs, for every operation that can move the expiry of an
+// account (renew, deposit, withdraw) and account versions 0..2, the scenario with
+// the modification confirming before the old expiry, between the old and the new
+// expiry, or never.
 func c09ManagerScenarios(r *Run) {
-	for ver := 0; ver <= 2; ver++ {
-		for _, confirm := range []string{"never", "before-old-expiry", "between"} {
-			c09RenewScenario(r, ver, confirm)
+	for _, op := range []string{"renew", "deposit", "withdraw"} {
+		for ver := 0; ver <= 2; ver++ {
+			for _, confirm := range []string{"never", "before-old-expiry", "between"} {
+				c09ModifyScenario(r, op, ver, confirm)
+			}
 		}
 	}
 }
 
-func c09RenewScenario(r *Run, ver int, confirm string) {
-	name := fmt.Sprintf("renew v%d confirm=%s", ver, confirm)
+func c09ModifyScenario(r *Run, op string, ver int, confirm string) {
+	name := fmt.Sprintf("%s v%d confirm=%s", op, ver, confirm)
 	bad := func(what string) {
 		r.Count("oracle/violation")
-		r.Violate("manager scenario "+name+": "+what, "C09/manager-renew",
-			map[string]interface{}{"scenario": "renew", "version": ver, "confirm": confirm})
+		r.Violate("manager scenario "+name+": "+what, "C09/manager-"+op,
+			map[string]interface{}{"scenario": op, "version": ver, "confirm": confirm})
 	}
 	e := newLcEnv(r)
 	defer e.close()
@@ -89,11 +95,22 @@ func c09RenewScenario(r *Run, ver int, confirm string) {
 		bad(fmt.Sprintf("expiry handled %d times before the expiry height %d", before, e1))
 		return
 	}
-	if _, _, err := e.mgr.RenewAccount(ctx, acct.TraderKey.PubKey, e2, chainfee.FeePerKwFloor, e.height, account.Version(ver)); err != nil {
-		bad("RenewAccount: " + err.Error())
+	switch op {
+	case "renew":
+		_, _, err = e.mgr.RenewAccount(ctx, acct.TraderKey.PubKey, e2, chainfee.FeePerKwFloor, e.height, account.Version(ver))
+	case "deposit":
+		_, _, err = e.mgr.DepositAccount(ctx, acct.TraderKey.PubKey, btcutil.Amount(120000), chainfee.FeePerKwFloor,
+			e.height, e2, account.Version(ver))
+	case "withdraw":
+		outs := []*wire.TxOut{{Value: 150000, PkScript: lcP2WKH}}
+		_, _, err = e.mgr.WithdrawAccount(ctx, acct.TraderKey.PubKey, outs, chainfee.FeePerKwFloor, e.height, e2,
+			account.Version(ver))
+	}
+	if err != nil {
+		bad(op + ": " + err.Error())
 		return
 	}
-	r.Count("manager/renewed")
+	r.Count("manager/modified-" + op)
 	settle := func() {
 		// expiry hand-offs spawned by a registration at / below the best height
 		e.waitAsync(atomic.LoadInt64(&e.expiryDone) - atomic.LoadInt64(&e.asyncExpected))
@@ -145,7 +162,7 @@ func c09RenewScenario(r *Run, ver int, confirm string) {
 			if rec, rerr := e.db.Account(k.key.PubKey); rerr == nil {
 				state = rec.State.String()
 			}
-			bad(fmt.Sprintf("account renewed from expiry %d to %d was handed to HandleAccountExpiry at height %d (< %d); state now %v",
+			bad(fmt.Sprintf("account whose expiry was moved from %d to %d was handed to HandleAccountExpiry at height %d (< %d); state now %v",
 				e1, e2, h, e2, state))
 			return
 		}
@@ -160,7 +177,7 @@ func c09RenewScenario(r *Run, ver int, confirm string) {
 		settle()
 	}
 	if n := e.expiryHandled(1); n != 1 {
-		bad(fmt.Sprintf("expiry of the renewed account (new expiry %d) handled %d times after blocks up to %d, expected exactly once",
+		bad(fmt.Sprintf("expiry of the modified account (new expiry %d) handled %d times after blocks up to %d, expected exactly once",
 			e2, n, e2+7))
 		return
 	}
